@@ -217,6 +217,7 @@ class Sim:
         self._patches = []
         self._line_counts = {}
         self._line_counts_after = {}
+        self._in_oracle = False
         self._line_fault = None
         self._line_seen = 0
         self._in_update = False
@@ -239,7 +240,11 @@ class Sim:
             fn = getattr(c, name, None)
             if fn is not None:
                 try:
-                    vs = fn(self, rec) or ()
+                    self._in_oracle = True  # library code run by an oracle is not a pre-emption point
+                    try:
+                        vs = fn(self, rec) or ()
+                    finally:
+                        self._in_oracle = False
                 except (Discard, HarnessError):
                     raise
                 except Exception as e:  # a bug in an oracle must never look like a tdgl error
@@ -303,6 +308,8 @@ class Sim:
 
     # ---------------------------------------------------------------- line pre-emption
     def _global_trace(self, frame, event, arg):
+        if self._in_oracle:
+            return None
         code = frame.f_code
         fn = code.co_filename
         if code.co_name in TRACE_FUNCS and fn.endswith(TRACE_FILES):
